@@ -102,7 +102,10 @@ static Result check_section(const J &c)
           bool is_vel = false;
           for (auto &vs : vel_slots) if (i >= vs.first && i < vs.first + vs.second) is_vel = true;
           if (is_vel && sph) continue; // the statement fixes the velocity convention for cartesian worlds only
-          if (!close_rel(o2[i], want[i], 1e-7, 1e-12)) { mismatch = true; bad = i; break; }
+          // 1e-7 relative; absolute 1e-8: operations add and subtract terms of order one (fractions, velocities), so a value
+          // that happens to cancel to 1e-4 still carries the rounding of its terms (the mapped point differs in the last digits
+          // and a distance behind a Newton iteration then differs by up to 1e-7 of itself)
+          if (!close_rel(o2[i], want[i], 1e-7, 1e-8)) { mismatch = true; bad = i; break; }
         }
       if (mismatch)
         {
@@ -134,7 +137,7 @@ static Result check_section(const J &c)
             if (one.size() != wdt) return Result::fail("2d-single-size", "2D request for the single property " + std::to_string(pr[0]) + " returns " + std::to_string(one.size()) + " values instead of " + std::to_string(wdt));
             if (!(pr[0] == 5 && sph))
               for (unsigned k = 0; k < wdt; ++k)
-                if (!close_rel(one[k], want[p0 + k], 1e-7, 1e-12))
+                if (!close_rel(one[k], want[p0 + k], 1e-7, 1e-8))
                   return Result::fail(pr[0] == 5 ? "2d-single-velocity" : "2d-single-property", std::string(sph ? "spherical" : "cartesian") + " section " + cs.dump() + ": the 2D request for property kind " + std::to_string(pr[0]) + " alone returns " + fmt(one[k]) + " in slot " + std::to_string(k) + " at (x=" + fmt(x) + ", z=" + fmt(z) + ", depth " + fmt(depth) + "), inside a batch (and through the 3D interface) it is " + fmt(want[p0 + k]));
             p0 += wdt;
           }
